@@ -161,4 +161,56 @@ theorem find_exact_partial {ι} (m : ι → Bool) (feats : List (Indexed ι)) (Q
     obtain ⟨f, hf, q, hq, h⟩ := contract x hx hm
     exact (shares_iff _ _).mpr (spatial_prefilter_sound_partial x.2 Q f q hf hq h (noFace x hx f hf))
 
+/-! ### intersects-feature: named feature without geometry, and layered (overlay) worlds
+
+`IntersectsFeature{ID}` compiles to the geometry query of the named feature as seen in the world it is resolved
+in: `resolve : Option (List Cell)` is the covering of that geometry query, `none` = `Empty{}` (the feature is
+missing in that world or has no geometry).  A layered world searches each layer and merges. -/
+
+/-- compiled search with an optional geometry query: `Empty{}` finds nothing -/
+def findResolved {ι} (m : ι → Bool) (feats : List (Indexed ι)) : Option (List Cell) → List (Indexed ι)
+  | none => []
+  | some Q => findFeatures m feats Q
+
+/-- Repaired `IntersectsFeature.Matches` is false for every feature when the named feature has no geometry, so
+the empty result is exactly `filter Matches` (the former finding `self-without-geometry`). -/
+theorem find_without_geometry {ι} (m : ι → Bool) (feats : List (Indexed ι))
+    (hm : ∀ x ∈ feats, m x.1 = false) :
+    findResolved m feats none = feats.filter (fun f => m f.1) := by
+  simp only [findResolved]
+  symm
+  rw [List.filter_eq_nil_iff]
+  intro x hx
+  simp [hm x hx]
+
+example : findResolved (fun _ => false) [((7 : Nat), ([] : List Cell))] none
+    = [((7 : Nat), ([] : List Cell))].filter (fun f => (fun _ => false) f.1) :=
+  find_without_geometry _ _ (by simp)
+
+/-- a layered world: each layer is searched with the query as resolved for that layer, results are merged -/
+def findLayered {ι} (m : ι → Bool) (base overlay : List (Indexed ι)) (qBase qOverlay : Option (List Cell)) :
+    List (Indexed ι) :=
+  findResolved m base qBase ++ findResolved m overlay qOverlay
+
+/-- Repaired layered worlds resolve the named feature once, in the whole world, and hand the same geometry
+query to every layer: the merged result is the search over all features, hence (with `find_exact`) exact. -/
+theorem find_layered_exact {ι} (m : ι → Bool) (base overlay : List (Indexed ι)) (Q : List Cell)
+    (contract : ∀ x ∈ base ++ overlay, m x.1 = true → ∃ f ∈ x.2, ∃ q ∈ Q, Cell.Intersects f q) :
+    findLayered m base overlay (some Q) (some Q) = (base ++ overlay).filter (fun f => m f.1) := by
+  rw [← find_exact m (base ++ overlay) Q contract]
+  simp [findLayered, findResolved, findFeatures, findFeaturesWith, candidates, List.filter_append]
+
+example : findLayered (fun _ => true) [((1 : Nat), [(⟨2, [1]⟩ : Cell)])] [((7 : Nat), [(⟨2, [1, 3]⟩ : Cell)])]
+    (some [⟨2, [1, 3]⟩]) (some [⟨2, [1, 3]⟩]) = [(1, [⟨2, [1]⟩]), (7, [⟨2, [1, 3]⟩])] := by decide
+
+/-- Code as found: the base layer resolved the named feature in the base only. Feature 7 lives in the overlay;
+the base compiles the query to `Empty{}` and the matching base feature 1 is missing from the result. -/
+theorem layered_resolution_counterexample :
+    let base : List (Indexed Nat) := [(1, [⟨2, [1]⟩])]
+    let overlay : List (Indexed Nat) := [(7, [⟨2, [1, 3]⟩])]
+    let Q : List Cell := [⟨2, [1, 3]⟩]
+    findLayered (fun _ => true) base overlay none (some Q) = [(7, [⟨2, [1, 3]⟩])] ∧
+    (base ++ overlay).filter (fun f => (fun _ => true) f.1) = [(1, [⟨2, [1]⟩]), (7, [⟨2, [1, 3]⟩])] := by
+  decide
+
 end B6.Props.C04
